@@ -2,6 +2,7 @@ from __future__ import annotations
 from abc import ABC, abstractmethod
 import asyncio
 import time
+from typing import Optional
 
 
 INTERVAL = 0.01
@@ -13,6 +14,8 @@ class RateLimiter(ABC):
         self.limit_bps: int = limit_bps
         self.bucket: int = 0
         self.last_refill: float = 0.0
+        self.successor: Optional[RateLimiter] = None
+        """Limiter that replaced this limiter (when the limit was changed)"""
 
     @classmethod
     def create_limiter(cls, limit_kbps: int) -> RateLimiter:
@@ -63,13 +66,16 @@ class UnlimitedRateLimiter(RateLimiter):
         return False
 
     async def take_tokens(self) -> int:
+        if self.successor is not None:
+            return await self.successor.take_tokens()
+
         return self.MIN_BUCKET_SIZE
 
     def add_tokens(self, token_amount: int):
         pass
 
     def copy_tokens(self, other: RateLimiter):
-        pass
+        other.successor = self
 
 
 class LimitedRateLimiter(RateLimiter):
@@ -101,13 +107,18 @@ class LimitedRateLimiter(RateLimiter):
         # poll the bucket independently a waiter can be starved forever by
         # others that poll in lockstep with it
         async with self._lock:
-            while True:
+            while self.successor is None:
                 is_empty = self.refill()
                 if not is_empty:
                     self.bucket -= self.MIN_BUCKET_SIZE
                     return self.MIN_BUCKET_SIZE
 
                 await asyncio.sleep(INTERVAL)
+
+        # The limit was changed while waiting: the tokens of this limiter were
+        # copied to its successor. Taking them here as well would exceed the
+        # new limit
+        return await self.successor.take_tokens()
 
     def add_tokens(self, token_amount: int):
         self.bucket += token_amount
@@ -117,3 +128,4 @@ class LimitedRateLimiter(RateLimiter):
     def copy_tokens(self, other: RateLimiter):
         self.add_tokens(other.bucket)
         self.last_refill = other.last_refill
+        other.successor = self
